@@ -177,6 +177,72 @@ def monitor(case, line):
     return None
 
 
+def observable_trace(case, line):
+    """API-level events of an implementation trace, for the trace-inclusion acceptor
+    (modelrun_c09 accepts): send begun / returned, callbacks, uv_close returned, close_cb,
+    final verdict."""
+    c = parse_case(case)
+    nxt, toks = {}, []
+    for t in line.split():
+        if t[0].isdigit():
+            p = t.split(".")
+            tid, label, evs = int(p[0]), p[1], p[5] if len(p) > 5 else "-"
+            if evs != "-":
+                for e in evs.split("+"):
+                    if e[0] == "c":
+                        toks.append(e.split("!")[0])
+                    elif e[0] == "k":
+                        toks.append(e.split("=")[0])
+                    elif e[0] == "x":
+                        toks.append(e)
+            if tid > 0 and label == "B":
+                i = nxt.get(tid, 0)
+                nxt[tid] = i + 1
+                toks.append("b%d:%d" % (tid, c["senders"][tid - 1][i]))
+            if tid > 0 and label == "A":
+                toks.append("r%d" % tid)
+        elif t.startswith("Q."):
+            toks.append("q" + t[2:])
+    return toks
+
+
+def trace_included(model, case, line):
+    """Is the implementation's observable trace a trace of the model (any interleaving of
+    the model's atomic steps)?  Used as the diagnostic when lock-step comparison fails."""
+    inp = ";".join(case.split(";")[:8]) + "; " + " ".join(observable_trace(case, line))
+    try:
+        out, rc, err = vf.run_lines([model, "accepts"], [inp], timeout=120)
+        return out[0] if out else "error"
+    except Exception as e:       # noqa
+        return "error: %s" % e
+
+
+def late_touch(case, line):
+    """Informational: a sender is still inside uv_async_send on a handle whose close_cb
+    has already run (DESIGN: user-lifetime issue, not part of the property)."""
+    c = parse_case(case)
+    nxt, cur, closed = {}, {}, set()
+    for t in line.split():
+        if not t[0].isdigit():
+            continue
+        p = t.split(".")
+        tid, label, evs = int(p[0]), p[1], p[5] if len(p) > 5 else "-"
+        if tid > 0 and label == "B":
+            i = nxt.get(tid, 0)
+            nxt[tid] = i + 1
+            cur[tid] = c["senders"][tid - 1][i]
+        if tid > 0 and label in ("2", "3", "W") and cur.get(tid) in closed:
+            return True
+        if evs != "-":
+            for e in evs.split("+"):
+                if e[0] == "x":
+                    closed.add(int(e[1:]))
+    return False
+
+
+MODEL_BIN = [None]
+
+
 # --------------------------------------------------------------------------
 def run_batch(chk, name, harness, model, cases, shards=16):
     """Run harness + model on the cases; returns (nbad, errors)."""
@@ -213,6 +279,8 @@ def diff_batch(chk, name, cases, impl, mod, max_report=3):
     bad = []
     for c, a, b in zip(cases, impl, mod):
         chk.count(name, c + "=>" + a)
+        if late_touch(c, a):
+            chk.cov["late_sender_after_close_cb_observed"] = chk.cov.get("late_sender_after_close_cb_observed", 0) + 1
         why = monitor(c, a)
         differ = vf.canon(a) != vf.canon(b)
         if differ:
@@ -222,9 +290,12 @@ def diff_batch(chk, name, cases, impl, mod, max_report=3):
     bad.sort(key=lambda x: (x[0], x[1]))
     for _, _, c, a, b, why, differ in bad[:max_report]:
         if differ:
-            chk.violation("%s: implementation and model disagree%s" % (name, (": " + why) if why else ""),
+            incl = trace_included(MODEL_BIN[0], c, a) if MODEL_BIN[0] else "not-run"
+            chk.violation("%s: implementation and model disagree in lock-step (trace inclusion: %s)%s"
+                          % (name, incl, (": " + why) if why else ""),
                           {"kind": "correspondence", "obligation": name, "case": c, "impl": a, "model": b,
-                           "monitor": why, "first_difference": first_diff(a, b)}, found_input=why is not None)
+                           "monitor": why, "first_difference": first_diff(a, b),
+                           "observable_trace_is_a_model_trace": incl}, found_input=why is not None)
         else:
             chk.violation("%s: trace violates the property: %s" % (name, why),
                           {"kind": "monitor", "obligation": name, "case": c, "impl": a}, found_input=True)
@@ -252,6 +323,7 @@ def main():
     except vf.BuildError as e:
         chk.violation("build failed: %s" % str(e)[:300], {"kind": "build", "log": str(e)}, found_input=False)
         chk.finish(rule="build failed")
+    MODEL_BIN[0] = model
     src = open(os.path.join(vf.REPO, "src", "unix", "async.c")).read()
     have_hooks = "UV__VERIF_POINT" in src
     modes = [1, 0] if have_hooks else [0]
@@ -279,9 +351,9 @@ def main():
     for hk in modes:
         for cfg in ENUM_CONFIGS:
             k = (3 if thorough else 2) if hk else (4 if thorough else 3)
-            enum_cases += enumerate_schedules(model, hk, cfg, k, 60000 if thorough else 1500)
+            enum_cases += enumerate_schedules(model, hk, cfg, k, 60000 if thorough else 3000)
     # (c) random cases
-    nrand = 30000 if thorough else 2500
+    nrand = 40000 if thorough else 6000
     rnd = []
     for i in range(nrand):
         rnd.append(gen_case(chk.rng, modes[i % len(modes)] if chk.rng.random() < 0.85 else modes[-1]))
